@@ -2,23 +2,12 @@ import ComposeVerif.Model.C11Normalize
 /-!
 # C11 — negative facts about the unchanged tree (concrete witnesses)
 
-`Normalize` is *not* total: an empty `pid:` (YAML null — accepted by the schema) reaches the unchecked
-assertion `n.(string)` of the namespace loop and panics (DESIGN §10 #2; the finding belongs to C01, the
-model reproduces it, and the correspondence stream replays it on the real code: corpus/C11/null-pid.json).
+(`normalize_not_total` — an empty `pid:` reached the unchecked `n.(string)` of the namespace loop and panicked — held
+until the C01 repairs: repo commits "an empty pid … no longer panics in Normalize" and "Normalize reports … as an
+error instead of panicking".  `Normalize` has no panic outcome any more: `Props/C11.lean` `normalize_never_panics`.)
 -/
 namespace CV.C11
 open CV CV.Val
-
-def nullPidDoc : KVs :=
-  [("name", .str "proj"), ("services", .map [("a", .map [("image", .str "i"), ("pid", .null)])])]
-
-def isPanicAt (site : String) : Out KVs → Bool
-  | .panic s => s == site
-  | _ => false
-
-/-- negation of "`Normalize` never panics": witness `services: {a: {image: i, pid: }}` -/
-theorem normalize_not_total : ∃ d, isPanicAt "loader.Normalize" (normalize pathClean [] d) = true :=
-  ⟨nullPidDoc, by decide⟩
 
 def argsOfA (d : KVs) : Option Val :=
   match lookup "services" d with
